@@ -9,9 +9,13 @@ PROP = 'C11'
 def plan(tier, seed):
   evs = rs.events(tier)
   depth = 3 if tier == 'quick' else 4
+  cases = [{'first': i, 'depth': 3, 'tier': tier} for i in range(len(evs))]
+  if tier == 'thorough':
+    # depth 4 over the quick alphabet, depth 3 over the extended one
+    cases = [{'first': i, 'depth': 4, 'tier': 'quick'}
+             for i in range(len(rs.events('quick')))] + cases
   return {
-      'cases': [{'first': i, 'depth': depth, 'tier': tier}
-                for i in range(len(evs))],
+      'cases': cases,
       'chunk': 1, 'budget_s': 280 if tier == 'quick' else 3300,
       'rule': ('E2: all histories of update/load calls of length <= depth over '
                'the event alphabet, each replayed on a fresh Quantizer in '
